@@ -1,19 +1,173 @@
-"""C33 / C34 — receive side of the dht broadcast protocol. Family P2PRecv (mechanism model)."""
+"""C33 / C34 — receive side of the dht broadcast protocol (system/p2p/dht/protocol/broadcast) and the
+other peer-facing receive paths. Family P2PRecv: mechanism model of the light-block pending machine."""
+import json
+import os
+
 FAMILY = 'P2PRecv'
 DRIVER = 'p2precv'
-HOOK_COMMITS = []
+KIND = 'TLA+ mechanism spec + TLC (exhaustive, GEN-all, simulation) + Go conformance driver running the real protocol in child processes'
+HOOK_COMMITS = ['b06d35f', '353d975', '97ba3f9']
+FIX_COMMITS = ['269496e', '2a12197', '8a4ad7d', 'dd96578']
+
+_TECH = ('TLA+ mechanism specification of the light-block pending machine checked by TLC (invariants and action '
+         'properties); every bounded behaviour exported by TLC is replayed into the real broadcast protocol running '
+         'in a child process whose survival is the observable; recorded runs of the protocol with its own tickers '
+         'are validated against the trace specification')
+
 PROPS = {
-    'C33': dict(text='wip', note='wip'),
-    'C34': dict(text='wip', note='wip'),
+    'C33': dict(
+        text='TLC checks on the mechanism model of addLtBlock/buildPendBlock/pendBlockLoop that no light-block '
+             'announcement (transaction count -1..4 and 2^40 against hash lists of length 0..4, missing miner tx, '
+             'every layout of singles and groups) and no later pool contents (absent / tx / group per short hash, '
+             'changing over time) can panic outside a recover; every behaviour TLC enumerates in the small '
+             'configuration is replayed into the real protocol (real pendBlockLoop, blockRequestLoop and '
+             'manageDeniedPeer goroutines driven tick by tick through hook H7) inside a child process: the process '
+             'must survive every step and at the end still rebuild a fresh light block and request a timed-out one. '
+             'TLC-scheduled RecvMalformed(class) steps feed structurally and byte-level malformed full blocks, '
+             'transactions, batches, block requests/responses, peer messages and raw light blocks through the '
+             'production validator/decoder/dispatcher, malformed download replies, peer-info and version '
+             'announcements and requests over real libp2p streams, and mutated state proofs. Three node '
+             'configurations are replayed (default, disableValidation, two p2p types).',
+        note='Structure is enumerated, bytes are sampled: "any content" is covered by seeded mutation of valid '
+             'encodings (protobuf and snappy layer, stream framing), not exhaustively (DESIGN §6). Bounds: <=2 light '
+             'blocks, <=4 txs per block in exhaustive runs (<=6 in simulation), <=3 hash ids. The pubsub message '
+             'enters at the topic validator (hook handle ReceiveRaw reproduces the decode-and-dispatch lines of '
+             'handleSubMsg); gossipsub itself, connection management and the dht routing code are not exercised. '
+             'Replies of the local mempool/blockchain modules are well-formed (not peer input). Memory exhaustion is '
+             'covered only for the announced transaction count. queryVersionOld/queryPeerInfoOld have no caller and '
+             'are not exercised.',
+        technique=_TECH,
+    ),
+    'C34': dict(
+        text='TLC checks on the mechanism model that a posted block has no holes and, whenever every pool answer '
+             'consumed was the true transaction, equals the original; that a pending block is neither requested nor '
+             'dropped before its timeout, is removed (built or requested from its sender) by the first loop iteration '
+             'after the timeout, and is posted by the first iteration at which all its transactions are present. '
+             'Every behaviour of the small configuration (all layouts of singles/groups up to 4 txs, every subset of '
+             'the block\'s transactions initially in the pool, arrivals/evictions before and after the timeout) is '
+             'replayed into the real protocol with real transactions, groups built by types.CreateTxGroup and the '
+             'real mempool short-hash cache behind the mempool stand-in; the block delivered to the blockchain topic '
+             'is compared byte for byte (transactions, positions, header hash, merkle root) with the original and the '
+             'full-block request must go to the sender\'s peer topic.',
+        note='Timeouts are driven by ageing the pending entry through the hook (Expire), not by wall-clock waiting in '
+             'replays; the recorded runs use the real 200 ms ticker and a 300 ms timeout. If the last transaction '
+             'arrives after the timeout but before the iteration that notices it either outcome (posted / requested) '
+             'is accepted. Blocks at or below the local height (no request is sent) are not modelled. The mempool is '
+             'the real SHashTxCache behind a scripted responder, not a full Mempool module. Layouts up to 6 txs are '
+             'sampled by simulation, up to 4 enumerated.',
+        technique=_TECH,
+    ),
 }
+
+KEY_ACTIONS = ('RecvLight', 'PoolUpdate', 'Expire', 'Tick', 'Probe')
+
+
+def _coverage_guard(res, cfg):
+    zeros = [z for z in res.get('zero_actions') or [] if any(('<' + a + ' ') in z for a in KEY_ACTIONS)]
+    if zeros:
+        raise vlib.Broken('vacuous model-checking run %s: actions never taken: %s' % (cfg, zeros))
+
+
+def _selftest(ctx, b, bs, opts):
+    """Anti-vacuity of the binding: a behaviour whose predicted status is corrupted must be reported."""
+    import copy
+    pick = None
+    for x in bs:
+        for i, s in enumerate(x['steps']):
+            st = (s.get('chk') or {}).get('st') or []
+            if 'posted' in st:
+                pick = (x, i, st.index('posted'))
+                break
+        if pick:
+            break
+    if not pick:
+        ctx.notes.append('selftest: no behaviour with a posted block')
+        return
+    x, i, j = pick
+    y = copy.deepcopy(x)
+    y['id'] = x['id'] + '-selftest'
+    y['steps'][i]['chk']['st'][j] = 'pend'
+    before = len(ctx.mismatches)
+    ctx.replay(b, [y], opts=opts, par=1, count=False, name='selftest-%s.ndjson' % ctx.prop)
+    new = ctx.mismatches[before:]
+    del ctx.mismatches[before:]
+    for m in new:
+        try:
+            os.remove(m.get('replay'))
+        except Exception:
+            pass
+    if not new:
+        raise vlib.Broken('binding self-test failed: a corrupted status prediction was not reported')
+    ctx.extra['selftest_corrupted_prediction_reported'] = True
 
 
 def run(ctx):
     q = ctx.tier == 'quick'
-    ctx.tlc_mc('P2PRecv_MC', 'P2PRecv_MCq.cfg', workers=2, timeout=1800)
+    c33 = ctx.prop == 'C33'
+    ctx.assumptions += [
+        'bytes are sampled (seeded mutation of valid encodings), structure is enumerated',
+        'replies of the local mempool / blockchain modules are well-formed',
+        'TLC bounds: <=2 light blocks, <=4 txs per block exhaustive (<=6 simulated), <=3..4 short-hash ids',
+        'pending timeout driven through hook H7 (Expire) in replays',
+    ]
     b = vlib.build(DRIVER)
-    bs = ctx.tlc_sim('P2PRecv_MC', 'P2PRecv_Gen.cfg', num=60, depth=11)
-    ctx.replay(b, bs, opts=dict(fuzz=3), par=4)
+
+    # 1. the properties on the mechanism model
+    r = ctx.tlc_mc('P2PRecv_MC', 'P2PRecv_MCq.cfg', workers=2 if q else 4, timeout=3600, coverage=not q)
+    if not q:
+        _coverage_guard(r, 'P2PRecv_MCq.cfg')
+        ctx.tlc_mc('P2PRecv_MC', 'P2PRecv_MC.cfg', workers=4, timeout=7200)
+    # anti-vacuity: the mechanism without the repaired bounds check must violate Alive
+    bad = ctx.tlc_mc('P2PRecv_MC', 'P2PRecv_MCbad.cfg', workers=2, timeout=3600, expect_violation=True, count=False)
+    if bad['violation'] != 'Alive':
+        raise vlib.Broken('model self-test failed: without the group bounds check the model should violate Alive, got %r' % bad['violation'])
+    ctx.extra['model_selftest_unguarded_mechanism_violates'] = 'Alive'
+
+    if c33:
+        ctx.rule = ('behaviours = (a) every complete behaviour of P2PRecv_All33 (one light block of every layout x '
+                    'announced count x hash-list length x miner/no miner, pool answers absent/tx/g2/g3 changing over '
+                    'time, ticks, timeouts), (b) TLC simulation with two blocks and RecvMalformed(class) steps over 13 '
+                    'classes; each ends with the Probe step; observable = child process alive + probe outcome + status '
+                    'of genuine blocks; non-trivial = a structurally inconsistent announcement, a malformed input on '
+                    'another path, or a pool update after a light block; distinct by abstract action sequence')
+        allb = ctx.tlc_genall('P2PRecv_All', 'P2PRecv_All33.cfg' if q else 'P2PRecv_All33t.cfg', timeout=7200, count=False)
+        ctx.replay(b, allb, opts=dict(fuzz=2), par=8, timeout=7200)
+        ctx.extra['exhaustive_small_config'] = dict(cfg='P2PRecv_All33.cfg' if q else 'P2PRecv_All33t.cfg', behaviours=len(allb))
+        n = 150 if q else 1200
+        for k, opts in enumerate([dict(fuzz=2), dict(fuzz=2, noval=1), dict(fuzz=2, dual=1)]):
+            bs = ctx.tlc_sim('P2PRecv_MC', 'P2PRecv_Gen.cfg', num=n if k == 0 else n // 2, depth=12, seed=ctx.seed * 10 + k)
+            ctx.replay(b, bs, opts=opts, par=8, timeout=7200)
+        if not q:
+            for sd in range(3, 6):
+                bs = ctx.tlc_sim('P2PRecv_MC', 'P2PRecv_Gen.cfg', num=n, depth=12, seed=ctx.seed * 10 + sd)
+                ctx.replay(b, bs, opts=dict(fuzz=6, salt=sd), par=8, timeout=7200)
+            import random
+            rnd = random.Random(ctx.seed)
+            sample = rnd.sample(allb, min(4000, len(allb)))
+            ctx.replay(b, sample, opts=dict(noval=1), par=8, timeout=7200, count=False)
+            ctx.replay(b, sample, opts=dict(dual=1), par=8, timeout=7200, count=False)
+        _selftest(ctx, b, allb, dict(fuzz=2))
+    else:
+        ctx.rule = ('behaviours = every complete behaviour of P2PRecv_All34: a genuine light block of every layout of '
+                    'singles and groups (group at every position), every subset of its transactions initially in the '
+                    'pool, then arrivals / evictions of the true transactions, timeouts and loop iterations in every '
+                    'order, closed by the Probe step; plus TLC simulation with two blocks and layouts up to 6 txs; '
+                    'non-trivial = a block containing a group received with some transactions missing while others are '
+                    'present or arrive later; distinct by abstract action sequence')
+        allb = ctx.tlc_genall('P2PRecv_All', 'P2PRecv_All34.cfg' if q else 'P2PRecv_All34t.cfg', timeout=7200, count=False)
+        ctx.replay(b, allb, opts={}, par=8, timeout=7200)
+        ctx.extra['exhaustive_small_config'] = dict(cfg='P2PRecv_All34.cfg' if q else 'P2PRecv_All34t.cfg', behaviours=len(allb))
+        n = 200 if q else 1500
+        for sd in range(0, 1 if q else 3):
+            bs = ctx.tlc_sim('P2PRecv_MC', 'P2PRecv_Gen34.cfg', num=n, depth=13, seed=ctx.seed * 10 + sd)
+            ctx.replay(b, bs, opts=dict(salt=sd), par=8, timeout=7200)
+        if not q:
+            import random
+            rnd = random.Random(ctx.seed)
+            sample = rnd.sample(allb, min(4000, len(allb)))
+            ctx.replay(b, sample, opts=dict(noval=1), par=8, timeout=7200, count=False)
+        _selftest(ctx, b, allb, {})
+    ctx.exhaustive = False  # exhaustive over the abstract behaviours of the small configuration; bytes are sampled
 
 
 import vlib  # noqa: E402
